@@ -41,7 +41,7 @@ PROPS = {
         "modules": ["PgBifrost.Props.C02"],
         "components": ["ledger", "client", "batcher", "pipeline", "syscorr"],
         "required_theorems": ["PgBifrost.Props.C02.ledger_drains_partial", "PgBifrost.Props.C02.recovery_commit_closes_open_delivery",
-                              "PgBifrost.Props.C02.sys_quiesces", "PgBifrost.Props.C02.ledger_model_is_source"],
+                              "PgBifrost.Props.C02.sys_quiesces", "PgBifrost.Props.C02.ledger_model_is_source", "PgBifrost.Props.C02.recovery_as_in_source"],
         "partial": "ledger layer proved under NoStale (finding F1 makes the full statement false). Client error recovery: "
                    "recovery_commit_closes_open_delivery is about the model of the repaired client (fix: commit for F2); "
                    "system-level quiescence is decided by the pipeline harness monitors (caughtUp, ledger empty), not one theorem",
@@ -55,7 +55,7 @@ PROPS = {
         "required_theorems": ["PgBifrost.Props.C03.acks_monotone", "PgBifrost.Props.C03.acks_sourced",
                               "PgBifrost.Props.C03.ack_is_running_max", "PgBifrost.Props.C03.restart_lsn_exact",
                               "PgBifrost.Props.C03.client_write_sites_as_modelled", "PgBifrost.Props.C03.drain_as_in_source",
-                              "PgBifrost.Props.C03.handle_progress_as_in_source"],
+                              "PgBifrost.Props.C03.handle_progress_as_in_source", "PgBifrost.Props.C03.conn_manager_as_in_source"],
         "assumptions": ["GetConn*/SendStandbyStatus/IdentifySystem do not fail, the progress channel is not closed, "
                         "TerminateCtx is not cancelled (not modelled)",
                         "conn.Manager is modelled (no live connection => dial + START_REPLICATION at the argument); "
@@ -124,7 +124,7 @@ PROPS = {
         "required_theorems": ["PgBifrost.Props.C10.marshal_decision_table_partial", "PgBifrost.Props.C10.marshal_quoted_toast_witness",
                               "PgBifrost.Props.C10.marshal_fields_equal", "PgBifrost.Props.C10.lsn_format_roundtrip",
                               "PgBifrost.Props.C10.marshal_history_independent", "PgBifrost.Props.C10.marshal_pool_independent",
-                              "PgBifrost.Props.C10.marshal_columns_as_in_source"],
+                              "PgBifrost.Props.C10.marshal_columns_as_in_source", "PgBifrost.Props.C10.marshal_entry_as_in_source"],
         "partial": "full decision table false on the unchanged tree (finding F5, quoted 'unchanged-toast-datum' text; pinned by the "
                    "repository's own tests, recorded): proved for changes without such a literal, witness theorem for the rest; history "
                    "independence of the CODE rests on marshal_pool_independent (pool-level model) plus the correspondence (sequences "
@@ -199,7 +199,7 @@ PROPS = {
     },
     "C17": {
         "modules": ["PgBifrost.Props.C17"],
-        "components": ["pipefault", "kinesis", "s3", "kafka", "rabbit", "retrypolicy", "runner"],
+        "components": ["pipefault", "kinesis", "s3", "kafka", "rabbit", "retrypolicy", "runner", "clientstop"],
         "required_theorems": ["PgBifrost.Props.C17.fault_never_unsafe_ack", "PgBifrost.Props.C17.single_shutdown_handler", "PgBifrost.Props.C17.runner_hands_the_handler_to_every_stage",
                               "PgBifrost.Props.C17.runner_starts_every_stage", "PgBifrost.Props.C17.retry_budget_gives_up", "PgBifrost.Props.C17.retry_policies_give_up",
                               "PgBifrost.Props.C17.retry_policies_complete", "PgBifrost.Props.C17.retry_unset_stop_never_gives_up",
@@ -219,7 +219,7 @@ PROPS = {
         "modules": ["PgBifrost.Props.C18"],
         "components": ["client", "clientload", "connmgr"],
         "required_theorems": ["PgBifrost.Props.C18.keepalive_reply_before_next_read",
-                              "PgBifrost.Props.C18.status_gap_bounded"],
+                              "PgBifrost.Props.C18.status_gap_bounded", "PgBifrost.Props.C18.keepalive_as_in_source"],
         "partial": "durations are proved in a logical-time timer sub-model (firing visible when due, handling takes no "
                    "time, ReceiveMessage returns within T); real timer/scheduler latency is measured by the harness "
                    "(max gap in the distribution), not proved. The session's very first keepalive is not answered even "
